@@ -25,17 +25,20 @@ BrickSample ==
 ThoroughBehaviours == HandBehaviours \cup {Brick(t[1], t[2], t[3], t[4]) : t \in BrickSample}
 QuickBricks == {Brick("Plastic", "Mises", "Linear", "none"), Brick("Norton", "Mises", "none", "none"),
                 Brick("Plastic", "Mises", "Linear", "Prager"), Brick("Norton", "Hill", "none", "none"),
-                Brick("Plastic", "Hosford", "Linear", "none"), Brick("HyperbolicSine", "Mises", "Voce", "none")}
+                Brick("HyperbolicSine", "Mises", "Voce", "none")}
+\* the quick tier keeps one representative of each family of algorithms
+QuickAlgos == {"none", "NewtonRaphson", "NewtonRaphson_NumericalJacobian", "Broyden", "LevenbergMarquardt", "euler", "rk4", "rk54", "rkCastem"}
 QuickBehaviours ==
-  {b \in HandBehaviours : ~(b.law = "elastic" /\ b.dsl = "RungeKutta" /\ b.algo \notin {"euler", "rk54"})
-                          /\ ~(b.law = "elastic" /\ b.algo = "NewtonRaphson_NumericalJacobian")}
+  {b \in HandBehaviours : /\ b.algo \in QuickAlgos
+                          /\ ~(b.law = "elastic" /\ b.dsl = "RungeKutta" /\ b.algo # "rk54")
+                          /\ ~(b.law \in {"elastic", "plastic"} /\ b.algo = "NewtonRaphson_NumericalJacobian")}
   \cup QuickBricks
 \* hypotheses exercised in the quick tier (all the supported ones in the thorough tier)
 QuickHyps(b) ==
   IF b.dsl = "Default" THEN Supported(b)
-  ELSE IF b.fam = "hand" /\ b.law = "elastic" /\ b.dsl = "Implicit" THEN AllHyps
+  ELSE IF b.fam = "hand" /\ b.law = "elastic" /\ b.dsl = "Implicit" THEN {"Tridimensional", "PlaneStress", "AxisymmetricalGeneralisedPlaneStress"}
   ELSE IF b.fam = "hand" /\ b.dsl = "Implicit" /\ b.algo = "NewtonRaphson" /\ b.jac = "analytic"
-       THEN IF b.law = "norton" THEN {"Tridimensional", "PlaneStress", "AxisymmetricalGeneralisedPlaneStrain"}
+       THEN IF b.law = "norton" THEN {"Tridimensional", "PlaneStress"}
             ELSE {"Tridimensional", "PlaneStress", "AxisymmetricalGeneralisedPlaneStress"}
   ELSE IF b.jac = "blocks" THEN {"PlaneStrain"}
   ELSE IF b.dsl = "IsotropicMisesCreep" THEN {"Tridimensional", "Axisymmetrical"}
@@ -44,7 +47,7 @@ QuickHyps(b) ==
   ELSE IF b.dsl = "IsotropicStrainHardeningMisesCreep" THEN {"GeneralisedPlaneStrain"}
   ELSE IF b = Brick("Plastic", "Mises", "Linear", "none") THEN {"Tridimensional", "PlaneStress"}
   ELSE IF b.algo \in {"Broyden", "LevenbergMarquardt"} THEN {"GeneralisedPlaneStrain"}
-  ELSE IF b.algo \in {"rk2", "PowellDogLeg_Broyden"} THEN {"Axisymmetrical"}
+  ELSE IF b.algo \in {"rk4"} THEN {"Axisymmetrical"}
   ELSE {"Tridimensional"}
 Behaviours(thorough) == IF thorough THEN ThoroughBehaviours ELSE QuickBehaviours
 HypsOf(thorough, b) == IF thorough THEN Supported(b) ELSE QuickHyps(b) \cap Supported(b)
